@@ -71,8 +71,10 @@ def handle (op : String) (j : Json) : Except String Json := do
       ([], pieces)).1
     -- delimited buffers with a column-name header line hand their header text over ("hdr")
     let hdrJ := (j.getObjValAs? String "hdr").toOption
-    let hdr : C02.Bytes := if isVcf fmt then Gen.C03.vcfDefaultHeader
-      else match hdrJ with | some h => toBytes h | none => []
+    -- (a table that carries a header context of its own hands that text over too; otherwise VCF: the default header)
+    let hdr : C02.Bytes := match hdrJ with
+      | some h => toBytes h
+      | none => if isVcf fmt then Gen.C03.vcfDefaultHeader else []
     let dump := dumpModel fmt
     let bytes := runAll hdr dump [] sess
     let m := Json.mkObj [("bytes", txt bytes)]
